@@ -68,7 +68,31 @@ static void on_grant(int i, int version_seen)
     pmc_progress();
 }
 
-template <int MAXLEN>
+// manual consumption: connect to a receiver, start, and keep the operation state alive until the very
+// end (as when_all / let_value / ensure_started do): releasing the wrapper alone must release the access
+template <typename F>
+struct GrantRecv
+{
+    PIKA_STDEXEC_RECEIVER_CONCEPT
+    F f;
+    template <typename W>
+    void set_value(W&& w) && noexcept { f(std::forward<W>(w)); }
+    void set_error(std::exception_ptr) && noexcept { pmc_fail("access-error", "an access sender completed with an error"); }
+    void set_stopped() && noexcept { pmc_fail("access-stopped", "an access sender completed with stopped"); }
+    constexpr ex::empty_env get_env() const& noexcept { return {}; }
+};
+struct KeptOp { void* p; void (*del)(void*); };
+static std::vector<KeptOp>* g_kept[2];
+template <typename S, typename F>
+static void start_kept(int who, S&& s, F&& f)
+{
+    using op_t = decltype(ex::connect(std::forward<S>(s), GrantRecv<std::decay_t<F>>{std::forward<F>(f)}));
+    auto* op = new op_t(ex::connect(std::forward<S>(s), GrantRecv<std::decay_t<F>>{std::forward<F>(f)}));
+    g_kept[who]->push_back(KeptOp{op, [](void* q) { delete static_cast<op_t*>(q); }});
+    ex::start(*op);
+}
+
+template <int MAXLEN, int KEEP_OPSTATES = 0>
 static void prog()
 {
     static Access acc[MAXN];
@@ -94,6 +118,10 @@ static void prog()
     int wcount = 0;
     for (int i = 0; i < N; ++i) { acc[i].group = wcount; if (acc[i].kind == 'W' && acc[i].role != 2) ++wcount; }
     {
+        std::vector<KeptOp> kept[2];    // destroyed last: the operation states outlive wrappers, threads and the mutex
+        g_kept[0] = &kept[0];
+        g_kept[1] = &kept[1];
+        struct KeptGuard { std::vector<KeptOp>* k; ~KeptGuard() { for (int w = 0; w < 2; ++w) for (auto& o : k[w]) o.del(o.p); } } kept_guard{kept};
         auto m = std::make_unique<mutex_t>(Tracked{});
         std::vector<std::function<void()>> start[2];
         // requests in program order on the main thread
@@ -104,13 +132,16 @@ static void prog()
                 auto s = m->readwrite();
                 if (acc[i].role == 2) continue;    // s dropped here, unstarted
                 auto sp = std::make_shared<decltype(s)>(std::move(s));
-                start[acc[i].role].push_back([i, sp] {
-                    ex::start_detached(std::move(*sp) | ex::then([i](rw_t w) {
+                int who = acc[i].role;
+                start[acc[i].role].push_back([i, sp, who] {
+                    auto body = [i](rw_t w) {
                         on_grant(i, w.get().version);
                         ++w.get().version;
                         A[i].held.emplace(std::move(w));
                         A[i].ready = 1;
-                    }));
+                    };
+                    if (KEEP_OPSTATES) start_kept(who, std::move(*sp), body);
+                    else ex::start_detached(std::move(*sp) | ex::then(body));
                 });
             }
             else
@@ -118,13 +149,16 @@ static void prog()
                 auto s = m->read();
                 if (acc[i].role == 2) continue;
                 auto sp = std::make_shared<decltype(s)>(std::move(s));
-                start[acc[i].role].push_back([i, sp, copy_read] {
-                    ex::start_detached(std::move(*sp) | ex::then([i, copy_read](ro_t r) {
+                int who = acc[i].role;
+                start[acc[i].role].push_back([i, sp, copy_read, who] {
+                    auto body = [i, copy_read](ro_t r) {
                         on_grant(i, r.get().version);
                         if (copy_read) A[i].copy.emplace(r);    // a second owner of the same read access
                         A[i].held.emplace(std::move(r));
                         A[i].ready = 1;
-                    }));
+                    };
+                    if (KEEP_OPSTATES) start_kept(who, std::move(*sp), body);
+                    else ex::start_detached(std::move(*sp) | ex::then(body));
                 });
             }
         }
@@ -169,14 +203,16 @@ int main(int argc, char** argv)
     static const char* sites = "async_rw_mutex|_Sp_counted_base|start_detached";
     static const char* focus = "F-site: all atomics in async_rw_mutex.hpp (op_state_head CAS/exchange), the shared_ptr control blocks of the group states and of the value (libstdc++ atomics compiled in the harness TU), start_detached";
     static const pmc_spec specs[] = {
-        {"rw_len2", prog<2>, 3, 4, 0.3, 0.2, 1, focus, sites, nullptr},
-        {"rw_len3", prog<3>, 2, 3, 0.7, 0.4, 1, focus, sites, nullptr},
-        {"rw_len4", prog<4>, -1, 2, 0, 0.4, 1, focus, sites, nullptr},
+        {"rw_len2", prog<2>, 3, 4, 0.25, 0.15, 1, focus, sites, nullptr},
+        {"rw_len3", prog<3>, 2, 3, 0.6, 0.35, 1, focus, sites, nullptr},
+        {"rw_len4", prog<4>, -1, 2, 0, 0.3, 1, focus, sites, nullptr},
+        {"rw_len2_opstates_kept", prog<2, 1>, 2, 3, 0.15, 0.05, 1, focus, sites, nullptr},
+        {"rw_len3_opstates_kept", prog<3, 1>, -1, 2, 0, 0.15, 1, focus, sites, nullptr},
     };
     static const char* assumptions[] = {"sequentially consistent interleavings only", "2 starting threads + the requesting main thread", "the non-void specialisation async_rw_mutex<T> (the void specialisation shares the state machine)"};
     pmc_config cfg{};
     cfg.property_id = "C04";
-    cfg.rule = "request words over {R,W} (len<=3, thorough 4) x role of each access {started by thread A, by thread B, dropped unstarted} x {mutex destroyed right after the requests} x {read wrapper copied} (data choices) x all schedules within the deviation bound";
+    cfg.rule = "request words over {R,W} (len<=3, thorough 4) x role of each access {started by thread A, by thread B, dropped unstarted} x {mutex destroyed right after the requests} x {read wrapper copied} x {start_detached | manual connect/start with operation states kept alive to the end} (data choices) x all schedules within the deviation bound";
     cfg.assumptions = assumptions;
     cfg.n_assumptions = 3;
     cfg.quick_budget_s = 90;
